@@ -518,14 +518,22 @@ def cfg_case(ctx, spec, idx, out):
     case = ("cfg", idx)
     kw = dict(rmin=spec["rmin"], rmax=spec["rmax"], unit=spec["unit"], rweight=spec["rweight"],
               resolution=spec["resolution"], closed=spec["closed"], max_workers=spec["max_workers"])
-    if spec["cosmology"] is not None:
+    own_cosmology = isinstance(spec["cosmology"], (list, tuple))
+    if own_cosmology:
+        # a cosmology object that is not one of astropy's predefined ones: ("flat", H0, Om0, name) / ("clone", H0, name)
+        from astropy.cosmology import FlatLambdaCDM, Planck15
+        c = spec["cosmology"]
+        kw["cosmology"] = (FlatLambdaCDM(H0=c[1], Om0=c[2], name=c[3]) if c[0] == "flat" else
+                           Planck15.clone(H0=c[1]) if c[2] is None else Planck15.clone(name=c[2], H0=c[1]))
+    elif spec["cosmology"] is not None:
         kw["cosmology"] = spec["cosmology"]
     custom = spec["method"] == "custom"
     if custom:
         kw["edges"] = spec["edges"]
     else:
         kw.update(zmin=spec["zmin"], zmax=spec["zmax"], num_bins=spec["num_bins"], method=spec["method"])
-    replay = dict(spec=spec, create_kwargs={k: (v.hex() if isinstance(v, float) else v) for k, v in kw.items()})
+    replay = dict(spec=spec, create_kwargs={k: (v.hex() if isinstance(v, float) else repr(v) if k == "cosmology" and own_cosmology else v)
+                                            for k, v in kw.items()})
     with warnings.catch_warnings():
         warnings.simplefilter("ignore")
         cfg = Configuration.create(**kw)
@@ -533,6 +541,12 @@ def cfg_case(ctx, spec, idx, out):
         try:
             cfg.to_file(path)
         except Exception as e:
+            if own_cosmology and type(e).__name__ == "ConfigError":
+                # only predefined cosmologies can be written by name: a refusal, not a silent substitution
+                ctx.bump("cfg_own_cosmology_refused")
+                ctx.count(key=("cfg-own-cosmology",) + tuple(sorted((k, str(v)) for k, v in spec.items())), nontrivial=True,
+                          kind="cfg/own-cosmology/refused")
+                return
             ctx.fail("c11-config-write-raises:%s" % type(e).__name__, "Configuration.to_file raised %r" % e, replay, case=case)
             return
         d = yaml.safe_load(open(path))
@@ -561,8 +575,13 @@ def cfg_case(ctx, spec, idx, out):
             ctx.fail("c11-config-method", "method %s read back as %s" % (cfg.binning.method, back.binning.method), replay, case=case)
         if scales_obs(back.scales) != scales_obs(cfg.scales):
             ctx.fail("c11-config-scales", "scales section read back differently: %s vs %s" % (cfg.scales.to_dict(), back.scales.to_dict()), replay, case=case)
-        if back.cosmology is not cfg.cosmology and getattr(back.cosmology, "name", None) != getattr(cfg.cosmology, "name", None):
-            ctx.fail("c11-config-cosmology", "cosmology %s read back as %s" % (cfg.cosmology.name, back.cosmology.name), replay, case=case)
+        def cpar(c):
+            return tuple((k, float(getattr(getattr(c, k), "value", getattr(c, k)))) for k in ("H0", "Om0") if hasattr(c, k))
+        if back.cosmology is not cfg.cosmology and (getattr(back.cosmology, "name", None) != getattr(cfg.cosmology, "name", None)
+                                                    or cpar(back.cosmology) != cpar(cfg.cosmology)):
+            ctx.fail("c11-config-cosmology", "cosmology %s %s read back as %s %s" % (getattr(cfg.cosmology, "name", None), cpar(cfg.cosmology),
+                                                                                   getattr(back.cosmology, "name", None), cpar(back.cosmology)),
+                     replay, case=case)
         if back.max_workers != cfg.max_workers:
             ctx.fail("c11-config-max-workers", "max_workers %r read back as %r" % (cfg.max_workers, back.max_workers), replay, case=case)
         if back.to_dict() != cfg.to_dict() and [float(x).hex() for x in back.binning.edges] == [float(x).hex() for x in edges]:
@@ -603,6 +622,11 @@ def cfg_specs(ctx, n):
         dict(base, method="linear", zmin=0.0, zmax=1.0, num_bins=1, rweight=0.0, resolution=1, max_workers=1),
         dict(base, method="linear", zmin=0.0, zmax=0.5, num_bins=2, rweight=-0.0, resolution=0),
         dict(base, method="custom", edges=[0.0, 0.25], rweight=1.0, resolution=2, rmin=0.5, rmax=1),
+        # cosmology objects that are not predefined ones (unnamed, renamed, a clone that keeps the predefined name)
+        dict(base, method="comoving", zmin=0.1, zmax=1.0, num_bins=3, cosmology=["flat", 70.0, 0.3, None]),
+        dict(base, method="comoving", zmin=0.1, zmax=1.0, num_bins=3, cosmology=["flat", 70.0, 0.3, "Foo"]),
+        dict(base, method="linear", zmin=0.1, zmax=1.0, num_bins=3, cosmology=["clone", 50.0, None]),
+        dict(base, method="logspace", zmin=0.1, zmax=1.0, num_bins=3, cosmology=["clone", 50.0, "mine"], unit="Mpc/h"),
     ]
     methods = ["linear", "comoving", "logspace", "custom"]
     for i in range(n):
